@@ -5,7 +5,8 @@ suite passes (both tag modes; a failing package is re-run 3x to rule out flakes)
 the clean tree and fails with the patch.  On success copies it to /verif/seeded/<ID>-<k>/."""
 import json, os, re, shutil, subprocess, sys, glob, tempfile
 ID, k = sys.argv[1], sys.argv[2]
-src = f"/tmp/seed/{ID}.out/{k}"
+base = os.environ.get("SEED_SRC", "/tmp/seed"); tagn = os.environ.get("SEED_TAG", "")
+src = f"{base}/{ID}.out/{k}"
 env = dict(os.environ, GOFLAGS="-mod=mod", GOPROXY="off", GOSUMDB="off")
 def sh(cmd, cwd, timeout=1500):
     p = subprocess.run(cmd, shell=True, cwd=cwd, env=env, capture_output=True, text=True, timeout=timeout)
@@ -55,7 +56,7 @@ try:
           and set(suite["notag"]["build_failed"]) <= expected_bf and not suite["unit"]["build_failed"])
     res["confirmed"] = ok
     if ok:
-        dst = f"/verif/seeded/{ID}-{k}"
+        dst = f"/verif/seeded/{ID}-{tagn}{k}"
         os.makedirs(dst, exist_ok=True)
         for f in os.listdir(src): shutil.copy(f"{src}/{f}", dst)
         meta["confirmed_by_main"] = {"worktree_of": subprocess.run("git -C /repo rev-parse --short " + os.environ.get("SEED_REV", "HEAD"), shell=True, capture_output=True, text=True).stdout.strip(),
